@@ -152,19 +152,27 @@ InitWith(c) ==
 \* tbl[f] is represented as a function whose domain is a set of pairs
 Upd(t, k, v) == [x \in (DOMAIN t) \cup {k} |-> IF x = k THEN v ELSE t[x]]
 
-Connect ==
-  /\ ph = "setup"
+Dyn == "dyn" \in DOMAIN cfg /\ cfg.dyn      \* dynamic wiring scenario (see ConnectInRun)
+ConnectBody ==
   /\ ci < Len(cfg.conns[run])
   /\ LET c == cfg.conns[run][ci + 1] IN
        /\ tbl' = [tbl EXCEPT ![c.flow] = Upd(@, <<c.from, c.act>>, c.to)]
        /\ h' = Append(h, EvConnect(c.flow, c.from, c.act, c.to))
   /\ ci' = ci + 1
   /\ UNCHANGED <<cfg, stack, ctx, ret, ph, tok, run>>
+Connect == ph = "setup" /\ (Dyn => ci < cfg.pre[run]) /\ ConnectBody
+
+\* Dynamic wiring: a node's post callback connects nodes of a flow while that flow is running (a "planner" node).  The
+\* table is a plain map read by Flow.Exec after every node (flyt.go:890): a Connect made inside the callback counts for
+\* the routing decision that follows it.  Scenario: the first cfg.pre[run] Connect calls of the run are made before it
+\* starts, the others from inside post callbacks, in order.
+ConnectInRun == ph = "running" /\ stack # <<>> /\ Top.t = "run" /\ Top.pc = "post" /\ ~ret.some /\ Node(Top.n).kind # "flow"
+                /\ Dyn /\ ConnectBody
 
 \* flyt.Run(ctx, top, store) is called; the context may already be done
 StartRun ==
   /\ ph = "setup"
-  /\ ci = Len(cfg.conns[run])
+  /\ IF Dyn THEN (ci >= cfg.pre[run] \/ ci = Len(cfg.conns[run])) ELSE ci = Len(cfg.conns[run])
   /\ ctx' = IF cfg.ctx0[run] THEN "done" ELSE ctx
   /\ h' = Append(h, [ev |-> "runcall", node |-> cfg.top, ctxdone |-> (ctx' = "done")])
   /\ stack' = <<RunFrame(cfg.top)>>
@@ -365,6 +373,24 @@ Finish ==
   /\ ret' = NoRet
   /\ UNCHANGED <<cfg, tbl, stack, tok>>
 
+\* A user callback panics.  The library has no recover: the panic unwinds every frame of the run and reaches the caller
+\* of flyt.Run (the harness recovers it there and logs "panic").  Nothing is returned, no further callback is made.
+Panics == "panic" \in cfg.outs
+PanicEnd(cbev) ==
+  /\ Panics
+  /\ h' = h \o <<cbev, [ev |-> "panic"]>>
+  /\ tok' = tok + 1
+  /\ stack' = <<>> /\ ret' = NoRet
+  /\ IF run < cfg.runs
+       THEN ph' = "setup" /\ run' = run + 1 /\ ci' = 0 /\ ctx' = "live"
+       ELSE ph' = "done" /\ UNCHANGED <<run, ci, ctx>>
+  /\ UNCHANGED <<cfg, tbl>>
+PanicOut == [out |-> "panic", nilv |-> FALSE, cancel |-> FALSE]
+PrepPanic == InRun("prep") /\ HasCallbacks(Top.n) /\ PanicEnd(EvPrep(Top.n, PanicOut, tok))
+ExecPanic == InRun("exec") /\ HasCallbacks(Top.n) /\ PanicEnd(EvExec(Top.n, Top.att + 1, Top.pv, PanicOut, tok))
+PostPanic == InRun("post") /\ HasCallbacks(Top.n) /\ PanicEnd(EvPost(Top.n, Top.pv, Top.xv, [out |-> "panic", act |-> 0, cancel |-> FALSE], tok))
+CallbackPanic == PrepPanic \/ ExecPanic \/ PostPanic
+
 Internal ==
   \/ Ctx0 \/ PrepFlow \/ Ctx1 \/ LoopTop \/ BItemTop \/ WaitElapsed \/ WaitCancelled
   \/ ExecFlowEnter \/ ExecFlowReturn \/ AfterLoop \/ PostFlow \/ FlowTop \/ FlowRoute
@@ -375,7 +401,7 @@ Callback ==
   \/ \E o \in FbOuts(Top.n)   : FbCb(o)
   \/ \E o \in PostOuts(Top.n) : PostCb(o)
 
-Next == Connect \/ StartRun \/ Internal \/ (ph = "running" /\ stack # <<>> /\ Top.t = "run" /\ Callback) \/ Finish
+Next == Connect \/ ConnectInRun \/ StartRun \/ Internal \/ (ph = "running" /\ stack # <<>> /\ Top.t = "run" /\ (Callback \/ CallbackPanic)) \/ Finish
 
 (* ---------------------------------------------------------------------- *)
 (* design-level invariants (state predicates, independent of h)           *)
